@@ -92,10 +92,11 @@ def is_pi(e):
 class Values:
     """polynomial form of an emitted value; transports / pi / len(...) get canonical atoms"""
 
-    def __init__(self, fn, antisym_transport=False, unit_phase=False):
+    def __init__(self, fn, antisym_transport=False, unit_phase=False, flat=None):
         self.b = sym.Bindings(fn)
         self.antisym = antisym_transport
         self.unit_phase = unit_phase
+        self.flat = flat        # None | "vertex" (T(j,i) = T(i,j) + pi: polar angle of the reversed edge) | "zero" (trivial transport)
 
     def atom_of(self, at):
         def f(e):
@@ -103,12 +104,16 @@ class Values:
                 return "pi"
             if isinstance(e, ast.Call) and au.call_tail(e) == "transport" and len(e.args) == 2:
                 a, b = (au.src(self.b.resolve(x, at=at)) for x in e.args)
+                if self.flat == "zero":
+                    return Poly.const(0)
+                if self.flat == "vertex":
+                    return Poly.atom(f"T({a},{b})") if a <= b else Poly.atom(f"T({b},{a})") + Poly.atom("pi")
                 if self.antisym and b < a:
                     return -Poly.atom(f"T({b},{a})")
                 return Poly.atom(f"T({a},{b})")
             if isinstance(e, ast.Call) and au.call_tail(e) == "len" and len(e.args) == 1:
                 return "len(" + au.src(self.b.resolve(e.args[0], at=at)) + ")"
-            if self.unit_phase and isinstance(e, ast.Call) and au.call_tail(e) == "rect":
+            if self.unit_phase and _rect_of(e) is not None:
                 return Poly.const(1)
             return None
         return f
@@ -121,17 +126,46 @@ def has_phase(e):
     return any(isinstance(n, ast.Call) and au.call_tail(n) in ("rect", "complex", "exp") for n in ast.walk(e))
 
 
+def _rect_of(x):
+    """(rect call, conjugated?) if x is rect(..) or rect(..).conjugate() / .conj() / np.conj(rect(..))"""
+    conj = False
+    while True:
+        if isinstance(x, ast.Call) and isinstance(x.func, ast.Attribute) and x.func.attr in ("conjugate", "conj") and not x.args:
+            conj, x = not conj, x.func.value
+        elif isinstance(x, ast.Call) and au.call_tail(x) in ("conj", "conjugate") and len(x.args) == 1:
+            conj, x = not conj, x.args[0]
+        else:
+            break
+    if isinstance(x, ast.Call) and au.call_tail(x) == "rect":
+        return x, conj
+    return None
+
+
 def split_phase(e):
-    """value = magnitude * rect(1, phi)  ->  (magnitude factors key, coef, phi) or None"""
+    """value = magnitude * rect(1, phi)  ->  (coef, magnitude factors key, phi) or None  (phi negated under a conjugate)"""
     coef, num, den = H.factors(e)
-    ph = [x for x in num if isinstance(x, ast.Call) and au.call_tail(x) == "rect"]
-    if len(ph) != 1 or len(ph[0].args) != 2 or au.const(ph[0].args[0]) not in (1, 1.0):
+    ph = [(x, _rect_of(x)) for x in num if _rect_of(x) is not None]
+    if len(ph) != 1:
         return None
-    rest = [x for x in num if x is not ph[0]]
-    return coef, H.factor_key(rest, den), ph[0].args[1]
+    node, (rc, conj) = ph[0]
+    if len(rc.args) != 2 or au.const(rc.args[0]) not in (1, 1.0):
+        return None
+    rest = [x for x in num if x is not node]
+    phi = rc.args[1]
+    if conj:
+        phi = ast.UnaryOp(op=ast.USub(), operand=phi)
+    return coef, H.factor_key(rest, den), phi
 
 
-def analyse_unit(ctx, rule_real, rule_cplx, modname, fn, loop, paths, antisym):
+def _multiple_of_2pi(p):
+    """is the phase polynomial in 2*pi*Z for every integer value of `order`?"""
+    for mono, c in p.t.items():
+        if sorted(mono) not in (["order", "pi"], ["pi"]) or c.denominator != 1 or int(c) % 2 != 0:
+            return False
+    return True
+
+
+def analyse_unit(ctx, rule_real, rule_cplx, modname, fn, loop, paths, antisym, flat="zero"):
     """symmetry and row sums of one assembly loop; returns (#real paths, #complex paths)"""
     n_real = n_cplx = 0
     q = fn.name
@@ -140,7 +174,8 @@ def analyse_unit(ctx, rule_real, rule_cplx, modname, fn, loop, paths, antisym):
         nested = [x for x in items if isinstance(x, tuple) and x[0] == "loop" and any(H.flat_emits(i) for _, i in x[2])]
         if not emits and not nested:
             continue
-        cplx = any(has_phase(e.val) for e in emits)
+        _b = sym.Bindings(fn)
+        cplx = any(has_phase(_b.resolve(e.val, at=e.node)) for e in emits)
         rule = rule_cplx if cplx else rule_real
         n_real += not cplx
         n_cplx += cplx
@@ -208,6 +243,15 @@ def analyse_unit(ctx, rule_real, rule_cplx, modname, fn, loop, paths, antisym):
                 if not ok:
                     problems.append(f"phases of ({au.src(e.row)}, {au.src(e.col)}) and of its transpose sum to {tot}, not to a multiple of 2*pi*order: "
                                     f"the matrix is not Hermitian")
+                # flat connection: the operator must be the scalar Laplacian for EVERY integer order
+                vals_flat = Values(fn, flat=flat)
+                for g, sg in ((e, se), (f, sf)):
+                    ph = vals_flat.poly(sg[2], g.node)
+                    if not _multiple_of_2pi(ph):
+                        model = ("transport(j,i) = transport(i,j) + pi, the polar angles of the two directions of an edge (FlatConnectionVertices)"
+                                 if flat == "vertex" else "transport = 0")
+                        problems.append(f"for the flat connection ({model}) the phase of entry ({au.src(g.row)}, {au.src(g.col)}) is {ph}, "
+                                        f"not a multiple of 2*pi for every integer order: the operator does not reduce to the scalar Laplacian (odd orders flip the sign)")
         ctx.check(not problems, rule, site, f"{label}: " + "; ".join(dict.fromkeys(problems)),
                   "a Laplacian must be symmetric (Hermitian with a connection) and annihilate constants" if not cplx else
                   "a connection Laplacian must be Hermitian and reduce to the scalar Laplacian for the trivial connection",
@@ -215,15 +259,46 @@ def analyse_unit(ctx, rule_real, rule_cplx, modname, fn, loop, paths, antisym):
     return n_real, n_cplx
 
 
-STENCILS = [  # function, antisymmetric transport assumed (checked by C08-T1)
-    ("graph_laplacian", False), ("laplacian", False), ("laplacian_edges", True),
-    ("volume_laplacian", False), ("laplacian_tetrahedra", False),
+STENCILS = [  # function, antisymmetric transport assumed (checked by C08-T1), flat-connection model
+    ("graph_laplacian", False, None), ("laplacian", False, "vertex"), ("laplacian_edges", True, "zero"),
+    ("volume_laplacian", False, None), ("laplacian_tetrahedra", False, None),
 ]
+
+
+def flat_premises(ctx):
+    """the flat-connection models used by C08-S2 are read off processing/connection.py"""
+    fn = ctx.repo.func(CONN, "FlatConnectionVertices.transport")
+    b = sym.Bindings(fn)
+    ps = au.params(fn, skip_self=True)
+    r = [s for s in au.stmts(fn.body) if isinstance(s, ast.Return) and s.value is not None]
+    ok = False
+    if len(r) == 1 and len(ps) == 2:
+        e = b.resolve(r[0].value, at=r[0])
+        if isinstance(e, ast.Call) and au.call_tail(e) in ("arctan2", "atan2") and len(e.args) == 2:
+            comps = []
+            for a, want in zip(e.args, ("y", "x")):
+                base = None
+                if isinstance(a, ast.Attribute) and a.attr == want:
+                    base = a.value
+                elif isinstance(a, ast.Subscript) and au.const(a.slice) == (1 if want == "y" else 0):
+                    base = a.value
+                comps.append(base)
+            if None not in comps and au.same(comps[0], comps[1]) and isinstance(comps[0], ast.BinOp) and isinstance(comps[0].op, ast.Sub):
+                def vid(x):
+                    return au.src(x.slice) if isinstance(x, ast.Subscript) and au.chain(x.value) and au.chain(x.value)[-1] == "vertices" else None
+                ok = [vid(comps[0].left), vid(comps[0].right)] == [ps[1], ps[0]]
+    ctx.check(ok, "C08-S2", ctx.site(CONN, fn), "FlatConnectionVertices.transport is not the polar angle atan2(E.y, E.x) of the edge vector E = P[iB] - P[iA]",
+              "premise of the flat reduction: transport(j,i) = transport(i,j) + pi (mod 2*pi)", note="flat vertex transport = polar angle of the edge")
+    fn = ctx.repo.func(CONN, "FlatConnectionFaces.transport")
+    r = [s for s in au.stmts(fn.body) if isinstance(s, ast.Return)]
+    ctx.check(len(r) == 1 and au.const(r[0].value) in (0, 0.0), "C08-S2", ctx.site(CONN, fn), "FlatConnectionFaces.transport does not return 0",
+              "premise of the flat reduction for face / edge based operators", note="flat face transport = 0")
 
 
 def s1_s2_stencils(ctx):
     nr = nc = 0
-    for name, antisym in STENCILS:
+    flat_premises(ctx)
+    for name, antisym, flat in STENCILS:
         fn = ctx.repo.func(LAP, name)
         st = H.Stencil(fn)
         us = units(st, fn.body)
@@ -236,7 +311,7 @@ def s1_s2_stencils(ctx):
             ctx.fail("C08-N1", ctx.site(LAP, fn, node), f"{name}: {msg}", "entries are stored on top of each other or at the wrong slot")
         a = b = 0
         for loop, paths in us:
-            x, y = analyse_unit(ctx, "C08-S1", "C08-S2", LAP, fn, loop, paths, antisym)
+            x, y = analyse_unit(ctx, "C08-S1", "C08-S2", LAP, fn, loop, paths, antisym, flat or "zero")
             a, b = a + x, b + y
         if a == 0:
             ctx.fail("C08-S1", site, f"{name}: no real assembly path found", "")
